@@ -31,7 +31,9 @@ Definition eq_oz (a b : option Z) : bool :=
   match a, b with Some x, Some y => Z.eqb x y | None, None => true | _, _ => false end.
 """
 URLS = ["http://h/debian", "http://h/debian-security", "http://h2/ubuntu", "https://h/deb/sub",
-        "http://user:pw@h3/private"]
+        "http://user:pw@h3/private",
+        # one host, several ports: different repositories (options name a repository by scheme, host, port and path)
+        "http://h:8080/apt", "http://h:8081/apt", "http://h:8081/apt/sub"]
 SUITES = ["bookworm", "trixie", "bookworm-updates"]
 COMPS = ["main", "contrib", "non-free"]
 ARCHES = ["amd64", "i386", "arm64"]
